@@ -420,3 +420,363 @@ Proof.
   intros H1 H2. destruct (cqm_is_equal_total_on_cqm c d) as [x Hx]. rewrite Hx. destruct x; [|reflexivity].
   apply cqm_is_equal_iff_same in Hx. destruct Hx as [_ [K _]]. exfalso. apply H2, K, H1.
 Qed.
+
+(* ====================================================================== *)
+(* is_almost_equal                                                        *)
+(* ====================================================================== *)
+Lemma rz_zero p : rz p 0 = true.
+Proof.
+  unfold rz. replace (0 * pow10 p) with 0 by ring. replace (- 0 * pow10 p) with 0 by ring. reflexivity.
+Qed.
+
+Lemma almost_eqb_refl p x : almost_eqb p x x = true.
+Proof. unfold almost_eqb. replace (x - x) with 0 by ring. apply rz_zero. Qed.
+
+Lemma almost_eqb_sym p x y : almost_eqb p x y = almost_eqb p y x.
+Proof.
+  unfold almost_eqb, rz. replace (y - x) with (- (x - y)) by ring.
+  replace (- - (x - y)) with (x - y) by ring. apply andb_comm.
+Qed.
+
+Lemma and_out_raise x y e : and_out x y = Raise e -> x = Raise e \/ y = Raise e.
+Proof. destruct x as [[|]|e']; cbn [and_out]; intros H; auto; discriminate. Qed.
+
+Lemma all_out_raise l e : all_out l = Raise e -> In (Raise e) l.
+Proof.
+  induction l as [|x l IH]; cbn [all_out]; [discriminate|]. intros H.
+  apply and_out_raise in H. destruct H as [->|H]; [left; reflexivity|right; auto].
+Qed.
+
+Lemma almost_body_raise p a b e : almost_body p a b = Raise e -> e = ValErr.
+Proof.
+  unfold almost_body. intros H.
+  apply and_out_raise in H. destruct H as [H|H]; [apply vartype_eq_raise in H; tauto|].
+  apply and_out_raise in H. destruct H as [H|H]; [discriminate|].
+  apply and_out_raise in H. destruct H as [H|H]; [discriminate|].
+  apply and_out_raise in H. destruct H as [H|H]; apply all_out_raise, in_map_iff in H; destruct H as [x [H _]].
+  - destruct (lin_of b x); [destruct (lin_of a x)|]; inversion H; reflexivity.
+  - destruct (adj_of b (fst (fst x)) (snd (fst x))); inversion H; reflexivity.
+Qed.
+
+Theorem is_almost_equal_total p a o : exists b, is_almost_equal_code p a o = Val b.
+Proof.
+  unfold is_almost_equal_code. destruct o as [q|b|c|].
+  - eauto.
+  - apply handle_total. intros e H. apply almost_body_raise in H. subst. reflexivity.
+  - apply handle_total. intros e H. apply body_vs_cqm_raise in H. destruct H as [->|[-> _]]; reflexivity.
+  - apply handle_total. intros e H. inversion H; subst. reflexivity.
+Qed.
+
+(* ---------- adjacency lookup as a search for the unordered pair ---------- *)
+Definition sp (v u : label) (t : qterm) : bool := same_pair v u (fst (fst t)) (snd (fst t)).
+Definition np (v u : label) : label * label := (Nat.min v u, Nat.max v u).
+
+Lemma adj_find m v u : adj_of m v u = option_map snd (find (sp v u) (e_quad m)).
+Proof.
+  unfold adj_of. induction (e_quad m) as [|[[a b] x] q IH]; [reflexivity|].
+  cbn [nbrs flat_map find]. unfold sp at 1, same_pair. cbn [fst snd].
+  rewrite (Nat.eqb_sym v a), (Nat.eqb_sym v b), (Nat.eqb_sym u a), (Nat.eqb_sym u b).
+  fold (nbrs q v).
+  destruct (Nat.eqb_spec a v) as [E1|E1]; destruct (Nat.eqb_spec b v) as [E2|E2];
+    destruct (Nat.eqb_spec b u) as [E3|E3]; destruct (Nat.eqb_spec a u) as [E4|E4];
+    cbn [app assoc andb orb option_map snd];
+    rewrite ?Nat.eqb_refl; subst;
+    repeat match goal with
+           | |- context [(?x =? ?y)%nat] => destruct (Nat.eqb_spec x y); try congruence
+           end; cbn [option_map snd]; try reflexivity; try exact IH; try congruence.
+Qed.
+
+Lemma sp_np v u t : sp v u t = true <-> np v u = npair t.
+Proof.
+  unfold sp, same_pair, np, npair. destruct t as [[a b] x]. cbn [fst snd].
+  rewrite orb_true_iff, !andb_true_iff, !Nat.eqb_eq. split.
+  - intros [[-> ->]|[-> ->]]; [reflexivity|]. f_equal; [apply Nat.min_comm|apply Nat.max_comm].
+  - intros H. inversion H. lia.
+Qed.
+
+Lemma sp_self t : sp (fst (fst t)) (snd (fst t)) t = true.
+Proof. apply sp_np. reflexivity. Qed.
+
+Lemma sp_trans v u t : sp v u t = true -> forall t', sp v u t' = sp (fst (fst t)) (snd (fst t)) t'.
+Proof.
+  intros H t'. apply sp_np in H.
+  destruct (sp v u t') eqn:E1; destruct (sp (fst (fst t)) (snd (fst t)) t') eqn:E2; try reflexivity.
+  - apply sp_np in E1. assert (K : sp (fst (fst t)) (snd (fst t)) t' = true) by (apply sp_np; unfold np; fold (npair t); congruence).
+    congruence.
+  - apply sp_np in E2. assert (K : sp v u t' = true) by (apply sp_np; unfold np in E2; fold (npair t) in E2; congruence).
+    congruence.
+Qed.
+
+Lemma find_ext' {A} (f g : A -> bool) l : (forall x, f x = g x) -> find f l = find g l.
+Proof. intros H. induction l as [|x l IH]; [reflexivity|]. cbn [find]. rewrite H, IH. reflexivity. Qed.
+
+Lemma adj_of_sp m v u t : sp v u t = true -> adj_of m v u = adj_of m (fst (fst t)) (snd (fst t)).
+Proof. intros H. rewrite !adj_find. f_equal. apply find_ext'. apply sp_trans. exact H. Qed.
+
+Lemma nodup_find q t : NoDup (map npair q) -> In t q -> find (sp (fst (fst t)) (snd (fst t))) q = Some t.
+Proof.
+  induction q as [|t0 q IH]; intros Hnd Hin; [destruct Hin|].
+  cbn [map] in Hnd. inversion Hnd as [|? ? Hni Hnd']; subst. cbn [find].
+  destruct (sp (fst (fst t)) (snd (fst t)) t0) eqn:E.
+  - destruct Hin as [->|Hin]; [reflexivity|]. exfalso. apply Hni. apply sp_np in E.
+    unfold np in E. fold (npair t) in E. rewrite <- E. apply in_map. exact Hin.
+  - destruct Hin as [->|Hin]; [rewrite sp_self in E; discriminate|]. apply IH; assumption.
+Qed.
+
+Lemma in_labels_len m : length (labels m) = length (e_vars m).
+Proof. unfold labels. apply map_length. Qed.
+
+Lemma rel_opt_none_iff R x y : rel_opt R x y -> (x = None <-> y = None).
+Proof. destruct x, y; cbn; intros H; split; intros; try congruence; try contradiction. Qed.
+
+Lemma same_labels_rel p a b :
+  (forall l, rel_opt (almost_eqb p) (lin_of a l) (lin_of b l)) -> forall l, In l (labels a) <-> In l (labels b).
+Proof.
+  intros H l. rewrite !in_labels_lin. pose proof (rel_opt_none_iff _ _ _ (H l)) as K. tauto.
+Qed.
+
+Theorem is_almost_equal_iff_same p a b :
+  wf a -> (is_almost_equal_code p a (OModel b) = Val true <-> almost_same_model p a b).
+Proof.
+  intros [Hnl [Hnq Hends]]. unfold is_almost_equal_code. rewrite handle_true. unfold almost_body, almost_same_model.
+  rewrite !and_out_true, !all_out_true. split.
+  - intros [V [S [O [Ls Qs]]]]. injection S as S'. apply shape_eqb_iff in S'. destruct S' as [S1 S2]. injection O as O'.
+    assert (Lin : forall v, In v (labels a) -> exists x y, lin_of a v = Some x /\ lin_of b v = Some y /\ almost_eqb p x y = true).
+    { intros v Hv. specialize (Ls _ (in_map _ _ _ Hv)). cbn beta in Ls.
+      destruct (lin_of b v) as [y|]; [|discriminate]. destruct (lin_of a v) as [x|]; [|discriminate].
+      inversion Ls. eauto. }
+    assert (I1 : incl (labels a) (labels b)).
+    { intros v Hv. destruct (Lin v Hv) as [x [y [_ [Hb _]]]]. apply in_labels_lin. congruence. }
+    assert (I2 : incl (labels b) (labels a)).
+    { apply NoDup_length_incl; [exact Hnl| |exact I1]. rewrite !in_labels_len. lia. }
+    assert (L : forall l, In l (labels a) <-> In l (labels b)) by (intros l; split; [apply I1|apply I2]).
+    assert (Qd : forall t, In t (e_quad a) -> exists y, adj_of b (fst (fst t)) (snd (fst t)) = Some y /\ almost_eqb p (snd t) y = true).
+    { intros t Ht. specialize (Qs _ (in_map _ _ _ Ht)). cbn beta in Qs.
+      destruct (adj_of b (fst (fst t)) (snd (fst t))) as [y|]; [|discriminate]. inversion Qs. eauto. }
+    assert (J1 : incl (map npair (e_quad a)) (map npair (e_quad b))).
+    { intros pr Hpr. apply in_map_iff in Hpr. destruct Hpr as [t [<- Ht]]. destruct (Qd t Ht) as [y [Hy _]].
+      rewrite adj_find in Hy. destruct (find (sp (fst (fst t)) (snd (fst t))) (e_quad b)) as [t'|] eqn:F; [|discriminate].
+      apply find_some in F. destruct F as [Hin Hsp]. apply sp_np in Hsp. unfold np in Hsp. fold (npair t) in Hsp.
+      rewrite Hsp. apply in_map. exact Hin. }
+    assert (J2 : incl (map npair (e_quad b)) (map npair (e_quad a))).
+    { apply NoDup_length_incl; [exact Hnq| |exact J1]. rewrite !map_length. lia. }
+    split; [apply (vartype_eq_iff a b L); exact V|]. split; [exact S1|]. split; [exact S2|]. split; [exact O'|]. split.
+    + intros l. destruct (in_dec Nat.eq_dec l (labels a)) as [Hl|Hl].
+      * destruct (Lin l Hl) as [x [y [-> [-> E]]]]. exact E.
+      * assert (Hb : ~ In l (labels b)) by (rewrite <- L; exact Hl).
+        rewrite in_labels_lin in Hl, Hb. destruct (lin_of a l); [exfalso; apply Hl; discriminate|].
+        destruct (lin_of b l); [exfalso; apply Hb; discriminate|exact I].
+    + intros v u _. destruct (find (sp v u) (e_quad a)) as [t|] eqn:F.
+      * pose proof (find_some _ _ F) as [Hin Hsp]. destruct (Qd t Hin) as [y [Hy E]].
+        rewrite (adj_of_sp b v u t Hsp), Hy. rewrite adj_find, F. exact E.
+      * rewrite (adj_find a), F. cbn [option_map].
+        destruct (adj_of b v u) as [y|] eqn:Hy; [|exact I]. exfalso.
+        rewrite adj_find in Hy. destruct (find (sp v u) (e_quad b)) as [t'|] eqn:F'; [|discriminate].
+        apply find_some in F'. destruct F' as [Hin' Hsp']. apply sp_np in Hsp'.
+        assert (K : In (np v u) (map npair (e_quad a))) by (apply J2; rewrite Hsp'; apply in_map; exact Hin').
+        apply in_map_iff in K. destruct K as [t [Ht Hin]].
+        pose proof (find_none _ _ F t Hin) as K'. assert (K2 : sp v u t = true) by (apply sp_np; congruence). congruence.
+  - intros [Hv [S1 [S2 [O [Ld A]]]]]. pose proof (same_labels_rel p a b Ld) as L.
+    split; [apply (vartype_eq_iff a b L); exact Hv|].
+    split; [f_equal; apply shape_eqb_iff; auto|]. split; [f_equal; exact O|]. split.
+    + intros o Ho. apply in_map_iff in Ho. destruct Ho as [v [<- Hv']].
+      specialize (Ld v). apply in_labels_lin in Hv'. destruct (lin_of a v) as [x|]; [|contradiction].
+      destruct (lin_of b v) as [y|]; [|contradiction]. cbn in Ld. f_equal. exact Ld.
+    + intros o Ho. apply in_map_iff in Ho. destruct Ho as [t [<- Ht]].
+      destruct (Hends t Ht) as [Hu _]. specialize (A _ (snd (fst t)) Hu).
+      rewrite (adj_find a), (nodup_find _ t Hnq Ht) in A. cbn [option_map] in A.
+      destruct (adj_of b (fst (fst t)) (snd (fst t))) as [y|]; [|contradiction]. cbn in A. f_equal. exact A.
+Qed.
+
+Lemma rel_opt_sym p x y : rel_opt (almost_eqb p) x y -> rel_opt (almost_eqb p) y x.
+Proof. destruct x, y; cbn; auto. rewrite almost_eqb_sym. auto. Qed.
+
+Lemma almost_same_sym p a b : almost_same_model p a b -> almost_same_model p b a.
+Proof.
+  intros [Hv [S1 [S2 [O [Ld A]]]]]. pose proof (same_labels_rel p a b Ld) as L.
+  split; [intros l; symmetry; apply Hv|]. split; [auto|]. split; [auto|].
+  split; [rewrite almost_eqb_sym; exact O|]. split; [intros l; apply rel_opt_sym, Ld|].
+  intros v u Hvb. apply rel_opt_sym, A, L, Hvb.
+Qed.
+
+Lemma same_is_almost p a b : same_model a b -> almost_same_model p a b.
+Proof.
+  intros [Hv [S1 [S2 [O [Ld A]]]]]. split; [exact Hv|]. split; [exact S1|]. split; [exact S2|].
+  split; [rewrite O; apply almost_eqb_refl|]. split.
+  - intros l. rewrite (Ld l). destruct (lin_of b l); cbn; [apply almost_eqb_refl|exact I].
+  - intros v u Hin. rewrite (A v u Hin). destruct (adj_of b v u); cbn; [apply almost_eqb_refl|exact I].
+Qed.
+
+Theorem is_almost_equal_refl p a : wf a -> is_almost_equal_code p a (OModel a) = Val true.
+Proof. intros W. apply (is_almost_equal_iff_same p a a W). apply same_is_almost, same_model_refl. Qed.
+
+Theorem is_almost_equal_sym p a b :
+  wf a -> wf b -> is_almost_equal_code p a (OModel b) = is_almost_equal_code p b (OModel a).
+Proof.
+  intros Wa Wb. destruct (is_almost_equal_total p a (OModel b)) as [x Hx].
+  destruct (is_almost_equal_total p b (OModel a)) as [y Hy]. rewrite Hx, Hy. destruct x, y; try reflexivity.
+  - apply (is_almost_equal_iff_same p a b Wa), almost_same_sym, (is_almost_equal_iff_same p b a Wb) in Hx. congruence.
+  - apply (is_almost_equal_iff_same p b a Wb), almost_same_sym, (is_almost_equal_iff_same p a b Wa) in Hy. congruence.
+Qed.
+
+(* equal models are almost equal for every number of places *)
+Theorem is_equal_implies_almost p a b :
+  wf a -> is_equal_code a (OModel b) = Val true -> is_almost_equal_code p a (OModel b) = Val true.
+Proof.
+  intros W H. apply (is_almost_equal_iff_same p a b W). apply same_is_almost. apply is_equal_iff_same. exact H.
+Qed.
+
+Theorem is_almost_equal_number p a q :
+  is_almost_equal_code p a (ONumber q) = Val true <-> e_vars a = [] /\ almost_eqb p (e_off a) q = true.
+Proof.
+  unfold is_almost_equal_code. split.
+  - intros H. inversion H as [H']. apply andb_prop in H'. destruct H' as [E O]. destruct (e_vars a); [auto|discriminate].
+  - intros [-> ->]. reflexivity.
+Qed.
+
+(* the boolean well-formedness test used on observations implies wf *)
+Lemma nodup_b_sound {A} (eqb : A -> A -> bool) l :
+  (forall x y, eqb x y = true <-> x = y) -> nodup_b eqb l = true -> NoDup l.
+Proof.
+  intros He. induction l as [|x l IH]; intros H; [constructor|]. cbn [nodup_b] in H.
+  apply andb_prop in H. destruct H as [H1 H2]. constructor; [|apply IH; exact H2].
+  intros Hin. apply negb_true_iff in H1. assert (K : existsb (eqb x) l = true).
+  { apply existsb_exists. exists x. split; [exact Hin|apply He; reflexivity]. }
+  congruence.
+Qed.
+
+Lemma wf_b_sound m : wf_b m = true -> wf m.
+Proof.
+  unfold wf_b, wf. rewrite !andb_true_iff. intros [[H1 H2] H3]. split; [|split].
+  - apply (nodup_b_sound Nat.eqb); [intros x y; apply Nat.eqb_eq|exact H1].
+  - eapply nodup_b_sound; [|exact H2]. intros [x1 x2] [y1 y2]. cbn [fst snd].
+    rewrite andb_true_iff, !Nat.eqb_eq. split; [intros [-> ->]; reflexivity|intros H; inversion H; auto].
+  - intros t Ht. rewrite forallb_forall in H3. specialize (H3 t Ht). apply andb_prop in H3.
+    destruct H3 as [A B]. apply mem_in in A, B. auto.
+Qed.
+
+(* ---------- constrained models: is_almost_equal ---------- *)
+Lemma constraint_almost_total p c0 c1 : exists b, constraint_almost p c0 c1 = Val b.
+Proof.
+  unfold constraint_almost. destruct (sense_eqb (k_sense c0) (k_sense c1)); cbn [and_out]; [|eauto].
+  destruct (is_almost_equal_total p (k_lhs c0) (OModel (k_lhs c1))) as [b ->]. destruct b; cbn [and_out]; eauto.
+Qed.
+
+Theorem cqm_is_almost_equal_total p c o : exists b, cqm_is_almost_equal_code p c o = Val b.
+Proof.
+  destruct o as [q|m|d|]; try (exists false; reflexivity). unfold cqm_is_almost_equal_code.
+  destruct (is_almost_equal_total p (q_obj c) (OModel (q_obj d))) as [b ->]. destruct b; cbn [and_out]; [|eauto].
+  destruct (keys_eqb (q_cons c) (q_cons d)) eqn:K; cbn [and_out]; [|eauto].
+  apply all_out_vals. intros o Ho. apply in_map_iff in Ho. destruct Ho as [[l k] [<- Hin]]. cbn [fst snd].
+  unfold keys_eqb in K. apply andb_prop in K. destruct K as [K _].
+  rewrite forallb_forall in K. specialize (K l). rewrite mem_in in K.
+  assert (Hl : In l (map fst (q_cons c))) by (apply in_map_iff; exists (l, k); auto).
+  specialize (K Hl). pose proof (assoc_in (q_cons d) l K) as A.
+  destruct (assoc (q_cons d) l) as [c1|]; [apply constraint_almost_total|contradiction].
+Qed.
+
+Definition wf_cqm (c : cqm) : Prop :=
+  wf (q_obj c) /\ forall l c0, In (l, c0) (q_cons c) -> wf (k_lhs c0).
+
+Definition almost_same_cqm (p : nat) (c d : cqm) : Prop :=
+  almost_same_model p (q_obj c) (q_obj d) /\
+  (forall l, In l (map fst (q_cons c)) <-> In l (map fst (q_cons d))) /\
+  (forall l c0, In (l, c0) (q_cons c) ->
+     exists c1, assoc (q_cons d) l = Some c1 /\ k_sense c0 = k_sense c1 /\
+                almost_same_model p (k_lhs c0) (k_lhs c1) /\ almost_eqb p (k_rhs c0) (k_rhs c1) = true).
+
+Lemma constraint_almost_true p c0 c1 :
+  wf (k_lhs c0) ->
+  (constraint_almost p c0 c1 = Val true <->
+   k_sense c0 = k_sense c1 /\ almost_same_model p (k_lhs c0) (k_lhs c1) /\ almost_eqb p (k_rhs c0) (k_rhs c1) = true).
+Proof.
+  intros W. unfold constraint_almost. rewrite !and_out_true, (is_almost_equal_iff_same p _ _ W). split.
+  - intros [H1 [H2 H3]]. injection H1 as H1'. injection H3 as H3'. apply sense_eqb_true_iff in H1'. auto.
+  - intros [H1 [H2 H3]]. split; [f_equal; apply sense_eqb_true_iff; exact H1|]. split; [exact H2|f_equal; exact H3].
+Qed.
+
+Theorem cqm_is_almost_equal_iff_same p c d :
+  wf_cqm c -> (cqm_is_almost_equal_code p c (OCqm d) = Val true <-> almost_same_cqm p c d).
+Proof.
+  intros [Wo Wc]. unfold cqm_is_almost_equal_code, almost_same_cqm.
+  rewrite !and_out_true, (is_almost_equal_iff_same p _ _ Wo), all_out_true. split.
+  - intros [H1 [H2 H3]]. injection H2 as H2'. pose proof (proj1 (keys_eqb_iff _ _) H2') as K.
+    split; [exact H1|]. split; [exact K|]. intros l c0 Hin.
+    specialize (H3 _ (in_map _ _ _ Hin)). cbn [fst snd] in H3.
+    destruct (assoc (q_cons d) l) as [c1|]; [|discriminate]. exists c1. split; [reflexivity|].
+    apply (constraint_almost_true p c0 c1 (Wc l c0 Hin)). exact H3.
+  - intros [H1 [H2 H3]]. split; [exact H1|]. split; [f_equal; apply (proj2 (keys_eqb_iff _ _)); exact H2|].
+    intros o Ho. apply in_map_iff in Ho. destruct Ho as [[l c0] [<- Hin]]. cbn [fst snd].
+    destruct (H3 l c0 Hin) as [c1 [E K]]. rewrite E. apply (constraint_almost_true p c0 c1 (Wc l c0 Hin)). exact K.
+Qed.
+
+Theorem cqm_is_equal_implies_almost p c d :
+  wf_cqm c -> cqm_is_equal_code c (OCqm d) = Val true -> cqm_is_almost_equal_code p c (OCqm d) = Val true.
+Proof.
+  intros W H. apply (cqm_is_almost_equal_iff_same p c d W). apply cqm_is_equal_iff_same in H.
+  destruct H as [H1 [H2 H3]]. split; [apply same_is_almost; exact H1|]. split; [exact H2|].
+  intros l c0 Hin. destruct (H3 l c0 Hin) as [c1 [E [S [M R]]]]. exists c1. split; [exact E|]. split; [exact S|].
+  split; [apply same_is_almost; exact M|rewrite R; apply almost_eqb_refl].
+Qed.
+
+(* ---------- the documented scope: what CQM equality does not look at ---------- *)
+(* soft weights, penalty kinds, discrete marks and the CQM's own variable list (variables used
+   by no expression, vartypes / bounds registered on the CQM) are invisible to is_equal and
+   is_almost_equal: erasing them on both sides never changes the answer *)
+Definition erase_constr (k : constr) : constr := mkC (k_sense k) (k_lhs k) (k_rhs k) None false false.
+Definition erase_cqm (c : cqm) : cqm :=
+  mkCqm (q_obj c) [] (map (fun lc => (fst lc, erase_constr (snd lc))) (q_cons c)).
+
+Lemma assoc_map {A B} (f : A -> B) (l : list (label * A)) k :
+  assoc (map (fun lc => (fst lc, f (snd lc))) l) k = option_map f (assoc l k).
+Proof.
+  induction l as [|[k' x] l IH]; [reflexivity|]. cbn [map assoc fst snd].
+  destruct (k' =? k)%nat; [reflexivity|exact IH].
+Qed.
+
+Lemma map_fst_map {A B} (f : A -> B) (l : list (label * A)) :
+  map fst (map (fun lc => (fst lc, f (snd lc))) l) = map fst l.
+Proof. rewrite map_map. apply map_ext. reflexivity. Qed.
+
+Lemma keys_eqb_erase c d : keys_eqb (q_cons (erase_cqm c)) (q_cons (erase_cqm d)) = keys_eqb (q_cons c) (q_cons d).
+Proof. unfold keys_eqb, erase_cqm. cbn [q_cons]. rewrite !map_fst_map. reflexivity. Qed.
+
+Theorem cqm_is_equal_scope c o :
+  cqm_is_equal_code c o =
+  cqm_is_equal_code (erase_cqm c) (match o with OCqm d => OCqm (erase_cqm d) | x => x end).
+Proof.
+  destruct o as [q|m|d|]; try reflexivity. unfold cqm_is_equal_code. rewrite keys_eqb_erase.
+  cbn [erase_cqm q_obj q_cons]. rewrite map_map. do 3 f_equal. apply map_ext.
+  intros [l k]. cbn [fst snd]. rewrite assoc_map.
+  destruct (assoc (q_cons d) l); reflexivity.
+Qed.
+
+Theorem cqm_is_almost_equal_scope p c o :
+  cqm_is_almost_equal_code p c o =
+  cqm_is_almost_equal_code p (erase_cqm c) (match o with OCqm d => OCqm (erase_cqm d) | x => x end).
+Proof.
+  destruct o as [q|m|d|]; try reflexivity. unfold cqm_is_almost_equal_code. rewrite keys_eqb_erase.
+  cbn [erase_cqm q_obj q_cons]. rewrite map_map. do 3 f_equal. apply map_ext.
+  intros [l k]. cbn [fst snd]. rewrite assoc_map.
+  destruct (assoc (q_cons d) l); reflexivity.
+Qed.
+
+Lemma same_cqm_refl c : NoDup (map fst (q_cons c)) -> same_cqm c c.
+Proof.
+  intros Hnd. split; [apply same_model_refl|]. split; [tauto|]. intros l c0 Hin. exists c0.
+  split; [|split; [reflexivity|split; [apply same_model_refl|reflexivity]]].
+  induction (q_cons c) as [|[l' k'] q IH]; [destruct Hin|]. cbn [map fst] in Hnd. inversion Hnd as [|? ? Hni Hnd']; subst.
+  cbn [assoc]. destruct Hin as [E|Hin].
+  - inversion E; subst. rewrite Nat.eqb_refl. reflexivity.
+  - destruct (Nat.eqb_spec l' l) as [->|]; [|apply IH; assumption].
+    exfalso. apply Hni. apply in_map_iff. exists (l, c0). auto.
+Qed.
+
+(* hence: two CQMs that differ ONLY in soft weights / penalties / discrete marks / the CQM-level
+   variable list compare equal *)
+Theorem cqm_is_equal_ignores c d :
+  NoDup (map fst (q_cons c)) -> erase_cqm c = erase_cqm d -> cqm_is_equal_code c (OCqm d) = Val true.
+Proof.
+  intros Hnd E. rewrite (cqm_is_equal_scope c (OCqm d)), <- E. apply cqm_is_equal_iff_same.
+  apply same_cqm_refl. unfold erase_cqm. cbn [q_cons]. rewrite map_fst_map. exact Hnd.
+Qed.
